@@ -12,9 +12,14 @@ PROPERTY = "C05"
 LEVEL = "model_checking"
 
 
-def class_dag_text(k: int, edges: List[Tuple[int, int]], abstract: List[bool], model_type: List[bool], order: List[int]) -> str:
-    """Classes C0..C<k-1>; (i, j) in edges: Cj inherits from Ci (i < j); every class owns one property and one invariant."""
+def class_dag_text(k: int, edges: List[Tuple[int, int]], abstract: List[bool], model_type: List[Any], order: List[int],
+                   parents_in_order: Optional[Dict[int, List[int]]] = None) -> str:
+    """Classes C0..C<k-1>; (i, j) in edges: Cj inherits from Ci (i < j); every class owns one property and one invariant.
+
+    ``model_type[j]`` is False (no decorator), True (``with_model_type=True``) or "bare" (``@serialization()``)."""
     parents: Dict[int, List[int]] = {j: [i for (i, jj) in edges if jj == j] for j in range(k)}
+    if parents_in_order is not None:
+        parents = parents_in_order
     ancestors: Dict[int, List[int]] = {}
 
     def anc(j: int) -> List[int]:
@@ -32,7 +37,9 @@ def class_dag_text(k: int, edges: List[Tuple[int, int]], abstract: List[bool], m
     for j in order:
         if abstract[j]:
             lines.append("@abstract")
-        if model_type[j]:
+        if model_type[j] == "bare":
+            lines.append("@serialization()")
+        elif model_type[j]:
             lines.append("@serialization(with_model_type=True)")
         lines.append(f'@invariant(lambda self: self.p{j} >= 0, "Invariant of C{j}")')
         bases = ", ".join(f"C{p}" for p in parents[j]) or "DBC"
@@ -68,7 +75,12 @@ def check_dag(k: int, edge_bits: List[Any], abstract_bits: List[Any], model_type
     edges = [pairs[n] for n in range(len(pairs)) if edge_bits[n]]       # forks: the solver enumerates the DAGs
     abstract = [True if abstract_bits[j] else False for j in range(k)]
     model_type = [True if model_type_bits[j] else False for j in range(k)]
-    text = class_dag_text(k, edges, abstract, model_type, list(range(k)))
+    return check_resolved(k, edges, abstract, model_type, None)
+
+
+def check_resolved(k: int, edges: List[Tuple[int, int]], abstract: List[bool], model_type: List[Any],
+                   parents_in_order: Optional[Dict[int, List[int]]]) -> str:
+    text = class_dag_text(k, edges, abstract, model_type, list(range(k)), parents_in_order)
     st, err = untraced(_load, text)
 
     # ---- reference
@@ -162,7 +174,7 @@ def check_dag(k: int, edge_bits: List[Any], abstract_bits: List[Any], model_type
         if isinstance(cls, intermediate.AbstractClass) != abstract[j]:
             fail("dag:abstract-flag-differs", "C%d", j)
         # ---- model type propagated down the hierarchy
-        want_mt = model_type[j] or any(model_type[a] for a in closure[j])
+        want_mt = (model_type[j] is True) or any(model_type[a] is True for a in closure[j])
         if cls.serialization.with_model_type != want_mt:
             fail("dag:with_model_type-is-not-propagated-consistently", "C%d: %r vs %r (edges %r, flags %r)", j,
                  cls.serialization.with_model_type, want_mt, edges, model_type)
@@ -231,7 +243,41 @@ def check_primitive_chain() -> List[str]:
     return problems
 
 
+PERMUTATIONS = [[0, 1, 2], [0, 2, 1], [1, 0, 2], [1, 2, 0], [2, 0, 1], [2, 1, 0]]
+
+
+def check_three_parents(from_first: List[Any], perm: Any, styles: List[Any]) -> str:
+    """C0, C1 roots; C2, C3, C4 each below C0 or C1; C5(three parents in a symbolic order); serialization styles symbolic."""
+    assume(0 <= perm < 6)
+    middle_parent = [0 if (True if f else False) else 1 for f in from_first]
+    order = PERMUTATIONS[0]
+    for n in range(6):
+        if perm == n:
+            order = PERMUTATIONS[n]
+    model_type: List[Any] = []
+    for s in styles:
+        assume(0 <= s <= 2)
+        chosen: Any = False
+        for v, name in ((0, False), (1, True), (2, "bare")):
+            if s == v:
+                chosen = name
+        model_type.append(chosen)
+    parents = {0: [], 1: [], 2: [middle_parent[0]], 3: [middle_parent[1]], 4: [middle_parent[2]], 5: [2 + o for o in order]}
+    edges = [(p, j) for j, ps in parents.items() for p in ps]
+    abstract = [True, True, True, True, True, False]
+    return check_resolved(6, edges, abstract, model_type, parents)
+
+
 def make_harness(params: Dict[str, Any]):
+    if params.get("kind") == "three-parents":
+        def harness3(f0: bool, f1: bool, f2: bool, perm: int, s0: int, s1: int, s2: int, s3: int, s4: int, s5: int) -> Any:
+            styles = [s0, s1, s2, s3, s4, s5]
+            for i, s in enumerate(styles):
+                if i not in params["styled"]:
+                    assume(s == 0)
+            return check_three_parents([f0, f1, f2], perm, styles)
+
+        return harness3
     k = params["k"]
     n_pairs = k * (k - 1) // 2
 
@@ -268,6 +314,10 @@ def shards(tier: str) -> List[Dict[str, Any]]:
                 out.append({"name": f"k={k},abstract={''.join('1' if f else '0' for f in fixed)},model-types={'symbolic' if mt else 'none'}",
                             "params": {"k": k, "fixed_abstract": list(fixed), "model_types": mt},
                             "budget_s": 300 if tier == "quick" else 3000, "per_path_timeout": 120})
+    # three parents with shared ancestors in every order; serialization decorators in three styles on two classes at a time
+    for styled in ([0, 2], [0, 5], [2, 5], [1, 3]) if tier == "quick" else ([0, 2], [0, 5], [2, 5], [1, 3], [0, 1], [3, 4], [4, 5]):
+        out.append({"name": f"three-parents,styled-classes={styled}", "params": {"kind": "three-parents", "styled": styled},
+                    "budget_s": 300 if tier == "quick" else 3000, "per_path_timeout": 120})
     return out
 
 
@@ -282,7 +332,8 @@ def describe(tier: str) -> Dict[str, Any]:
         "functions": ["aas_core_codegen.intermediate._hierarchy.map_symbol_to_ancestors_or_error",
                       "aas_core_codegen.intermediate._translate.translate", "aas_core_codegen.intermediate._types.Class",
                       "aas_core_codegen.intermediate.construction.understand_all"],
-        "bounds": "all DAGs over k = 2..4 classes in declaration order (every subset of the k(k-1)/2 possible edges), "
+        "bounds": "a six-class family (two roots, three middle classes below either root, one class with the three middle classes as parents in "
+                  "every order; @serialization absent / with_model_type=True / bare on two classes at a time); all DAGs over k = 2..4 classes in declaration order (every subset of the k(k-1)/2 possible edges), "
                   "every assignment of abstract / concrete (at least one concrete) and of with_model_type flags (quick tier: no model-type flags for k = 4); each class owns one "
                   "property and one invariant and a constructor which calls the constructors of all its bases; plus one chain of "
                   "three constrained primitives (concrete)",
